@@ -384,6 +384,21 @@ def patLostHandshakeAck (h : Spec.History) : Bool :=
       | none => false
     | _ => false)
 
+/-- F-C06-4: a zero-window ACK was delivered after a younger packet of the same flow (so a stale
+    "window closed" can be the last word the sender hears). -/
+def patStaleZeroWindow (h : Spec.History) : Bool :=
+  let em := emitted h
+  (h.foldl (fun (acc : List (Nat × Packet) × Bool) e =>
+    match e.1 with
+    | .deliver id | .dup id =>
+      match em.lookup id with
+      | some p =>
+        let younger := acc.1.any fun q => q.1 > id && q.2.src == p.src && q.2.seg.srcPort == p.seg.srcPort &&
+          q.2.dst == p.dst && q.2.seg.dstPort == p.seg.dstPort
+        (acc.1 ++ [(id, p)], acc.2 || (isPureAck p && p.seg.window == 0 && younger))
+      | none => acc
+    | _ => acc) ([], false)).2
+
 def patLostPureAck (h : Spec.History) : Bool := (droppedPkts h).any isPureAck
 def patZeroWindow (h : Spec.History) : Bool := (emitted h).any fun e => e.2.udp.isNone && e.2.seg.flags.ack && !e.2.seg.flags.rst && e.2.seg.window == 0
 def patLostRst (h : Spec.History) : Bool := (droppedPkts h).any fun p => p.seg.flags.rst
@@ -416,7 +431,8 @@ def oracle (prop : String) (c : Case) (h : Spec.History) (closedWin hsRetx : Boo
       if c.live then
         match Spec.c06Liveness c.cfg h with
         | some m =>
-          let pat := if closedWin then "F-C06-2" else if patLostHandshakeAck h then "F-C06-3"
+          let pat := if closedWin && patStaleZeroWindow h then "F-C06-4" else if closedWin then "F-C06-2"
+                     else if patLostHandshakeAck h then "F-C06-3"
                      else if patLostPureAck h then "F-C06-1" else if hsRetx then "F-C06-5" else "none"
           { fail := some m, pattern := pat }
         | none => {}
